@@ -376,10 +376,10 @@ template <class T, class Form> void big_case(vh::Case& c) {
   const char* targets[] = {"bf64", "bf128", "cns128"};
   std::string target = targets[r.below(3)];
   std::vector<int> dims;
-  for (int d = 0; d <= n - 2; ++d) if (target == dispatch_class(n, d, x.p)) dims.push_back(d);
-  if (dims.empty()) for (int d = 0; d <= n - 2; ++d) dims.push_back(d);
+  for (int d = 0; d <= n - 2; ++d) if (encodable(n, d, x.p) && target == dispatch_class(n, d, x.p)) dims.push_back(d);
+  if (dims.empty()) for (int d = 0; d <= n - 2; ++d) if (encodable(n, d, x.p)) dims.push_back(d);
   x.dim_max = dims[r.below(dims.size())];
-  if (b.hint_dim >= 0) x.dim_max = std::min(b.hint_dim, n - 2);
+  if (b.hint_dim >= 0 && encodable(n, b.hint_dim, x.p)) x.dim_max = std::min(b.hint_dim, n - 2);
   Threshold thr; thr.cls = "finite_small"; thr.none = false; thr.value = (double)(T)b.thr;
   // the model graph: finite entries <= threshold
   Input edges = in;
